@@ -32,6 +32,12 @@ pub fn clean_input(buffer: &str) -> String {
     Helper function to determine if we are out of time for our search
 */
 pub fn out_of_time(start: Instant, time_to_move_ms: u128) -> bool {
+    #[cfg(walleye_verif)]
+    {
+        if let Some(b) = crate::verif::clock_query() {
+            return b;
+        }
+    }
     Instant::now().duration_since(start).as_millis() >= time_to_move_ms
 }
 
